@@ -135,4 +135,9 @@ def run(facts, tier, ctx):
                              "crate-local sink %s has Error = %s; a fallible concrete sink must be added to the "
                              "external set" % (imp["self"], et)))
     inf.require_floor(2, "BitSink impls in the crate")
-    return [rr, inf, rule_prefix(facts)]
+    # prefix clause: the bytes a frame forwards from its scratch sinks are this frame's bits only - the scratch is cleared
+    # before use, so a write that failed earlier on the thread leaves nothing behind (C10 RESET, C08 effect)
+    from . import c10, c08
+    extra = [r for r in c10.run(facts, tier, ctx) if r.rule == "RESET"]
+    extra += [r for r in c08.rule_effect(facts)]
+    return [rr, inf, rule_prefix(facts)] + extra
